@@ -99,6 +99,10 @@ func rulesC20(c *Ctx) {
 	R.Rule("R5", "status 400 before the body in the error writer; no status on success paths", 2)
 	R.Rule("R7", "list-valued answers are JSON arrays, never null: the lists the restore and state-check operations return on success are built on an allocated (possibly empty) slice", 3)
 	R.Rule("R6", "a refusal is never answered with success: in the mint, its storage and Lightning layers and the protocol packages the error of every call is tested nil, classified or handed on before any return that may report success (sites where continuing is intended are a frozen table)", 100)
+	R.Rule("R9", "a refusal carries an error: a return of the mint that hands out nothing takes its error from a constant, a variable tested non-nil or a function that never returns nil", 1)
+	c.ruleRefusalCarriesError("R9", []string{"mint", "mint/storage/sqlite", "mint/lightning", "cashu"}, 0)
+	R.Rule("R8", "optional members stay optional: a stored signature without DLEQ columns (NULL) is restored without a dleq member - the readers set a DLEQ only behind Valid of both nullable columns", 4)
+	c.ruleNullableDLEQ("R8")
 	c.c20ListsNeverNull()
 	c.ruleErrorDisciplinePkgs("R6", []string{"mint", "mint/storage/*", "mint/lightning", "mint/manager", "mint/pubsub", "cashu", "cashu/*", "crypto"}, errToleratedMint, 100)
 	c.vocabProblems("R1")
